@@ -406,14 +406,12 @@ let run_case (x : sx) : unit =
   | L [A "rule"; id; y; docs; sws; L [f_reads; f_validate; f_trees]; o] ->
       let o = dec_oracle o in
       let y = dec_yaml y in
+      (* top-level keys must be strings: serde's derived field visitor also accepts integer
+         keys as field indices, which the model does not describe *)
       let modelled =
-        match y with
-        | YMap kv ->
-            all_string_keys kv &&
-            (match List.find_opt (fun (k, _) -> k = YStr (str_of_ascii "detection")) kv with
-             | Some (_, YMap dkv) -> all_string_keys dkv
-             | _ -> true)
-        | _ -> false in
+        match untag y with
+        | YMap kv -> all_string_keys kv
+        | _ -> true in
       add "("; add (atom id);
       if not modelled then add " unmodelled"
       else begin
